@@ -40,7 +40,9 @@ EvInsert ==
   /\ LET e == Trace[l]
          strip(xs) == [j \in 1..Len(xs) |-> [key |-> xs[j].key, loc |-> xs[j].loc, label |-> xs[j].label]]
      IN verdicts' = verdicts \cup Tag(e, ToString(l),
-          IF e.panic # "" THEN {"panic"} ELSE JudgeInserted(strip(e.ins), strip(e.out)))
+          IF e.panic # "" THEN {"panic"} ELSE JudgeInserted(strip(e.ins), strip(e.out))
+                                              \* the tables Insert was called on still read as before
+                                              \cup (IF e.stale # <<>> THEN {"insert-receiver-changed"} ELSE {}))
   /\ UNCHANGED tab
 
 Consume == l <= N /\ (EvTable \/ EvFilter \/ EvLess \/ EvInsert) /\ l' = l + 1
